@@ -390,14 +390,17 @@ Definition metric (w sv : list T) : list T := vdiv w sv.
 Definition prox_obj (f : list T -> ext) (m : list T) (x z : list T) : ext :=
   eadd (f z) (Some (wnormsq m (vsub z x) / of_Z 2)).
 
-(* per-entry step vector of a step specification on the space of [e] *)
-Fixpoint sig_flat (e : fexpr) (s : sig) : list T :=
-  match s with
-  | SScal sg => repeat sg (fdim e)
-  | SVec v => v
-  | SPair a b => match e with
-                 | Sep e1 e2 => sig_flat e1 a ++ sig_flat e2 b
-                 | _ => [] end
+(* per-entry step vector a step specification denotes on the space of [e] *)
+Fixpoint sig_flat (e : fexpr) (s : sig) {struct e} : list T :=
+  match e with
+  | Leaf _ w => sigv (length w) s
+  | LScal _ e' | RScal _ e' | SSum _ e' | Transl _ e' | QPert _ _ _ e' => sig_flat e' s
+  | Sep e1 e2 =>
+      match s with
+      | SScal _ => sig_flat e1 s ++ sig_flat e2 s
+      | SVec v => v
+      | SPair a b => sig_flat e1 a ++ sig_flat e2 b
+      end
   end.
 
 End M.
